@@ -6,11 +6,12 @@
 From DV Require Import Lib.Base Routing.Routing Spec.RoutingSpec Proofs.RoutingProofs.
 Local Open Scope N_scope.
 
-(* exactly one output per send: the message to the primary owner of the destination AT PROCESSING TIME
-   (resolve in the pre-state), or one error to the sender with the message's serial *)
+(* exactly one delivery per send: the message to the primary owner of the destination AT PROCESSING TIME
+   (resolve in the pre-state) followed only by the copies made for eavesdrop match rules ([eav_out], characterised by
+   C05_copies_only_to_eavesdroppers / C05_copies_once), or one error to the sender with the message's serial *)
 Theorem C05_exactly_once : forall cf st c m,
   wf_event st (ESend c m) = true ->
-  (exists r, resolve st (m_dest m) = Some r /\ snd (step cf st (ESend c m)) = [(r, OFwd c m)]) \/
+  (exists r, resolve st (m_dest m) = Some r /\ snd (step cf st (ESend c m)) = (r, OFwd c m) :: eav_out cf st c r m) \/
   (exists e, snd (step cf st (ESend c m)) = [(c, OErr e (m_serial m))]).
 Proof. exact send_exactly_once. Qed.
 Print Assumptions C05_exactly_once.
@@ -20,6 +21,19 @@ Theorem C05_no_third_party_intact : forall cf st c m x f m',
   In (x, OFwd f m') (snd (step cf st (ESend c m))) -> resolve st (m_dest m) = Some x /\ f = c /\ m' = m.
 Proof. exact no_third_party. Qed.
 Print Assumptions C05_no_third_party_intact.
+
+(* connections "granted eavesdropping": every extra copy goes to a connection OTHER than the addressed recipient that
+   holds an eavesdrop='true' match rule matching the message, and each such connection gets at most one copy *)
+Theorem C05_copies_only_to_eavesdroppers : forall cf st c r m x,
+  In x (eav_out cf st c r m) ->
+  snd x = OEav c m /\ fst x <> r /\
+  exists rl, In (fst x, rl) (st_rules st) /\ r_eaves rl = true /\ rule_matches st rl c r m = true.
+Proof. exact eavesdrop_copies. Qed.
+Print Assumptions C05_copies_only_to_eavesdroppers.
+
+Theorem C05_copies_once : forall cf st c r m, NoDup (map fst (eav_out cf st c r m)).
+Proof. exact eavesdrop_once. Qed.
+Print Assumptions C05_copies_once.
 
 (* no step other than a send forwards anything *)
 Theorem C05_only_sends_forward : forall cf st e x,
@@ -33,7 +47,7 @@ Theorem C05_delivered : forall cf st c m r,
   (0 <? m_nfds m) && negb (conn_fds st r) = false ->
   (is_call m = false \/ m_noreply m = true \/
    ((forall p, In p (st_pend st) -> pend_match c r (m_serial m) p = false) /\ count_get c (st_pend st) < max_replies cf)) ->
-  snd (step cf st (ESend c m)) = [(r, OFwd c m)].
+  snd (step cf st (ESend c m)) = (r, OFwd c m) :: eav_out cf st c r m.
 Proof. exact permissive_delivers. Qed.
 Print Assumptions C05_delivered.
 
@@ -80,6 +94,12 @@ Proof. exists cfg_p, h_two, 0, 7. vm_compute. auto. Qed.
 Print Assumptions C05_two_errors_refuted.
 
 (* non-vacuity *)
+Definition eav_all : rule := mkRule true None None None.
+Example ex_own_rule_no_second_copy :
+  snd (step cfg_p (state_of cfg_p [EConnect false; EConnect false; EConnect false; EAddMatch 1 9 eav_all; EAddMatch 2 9 eav_all])
+            (ESend 0 (mkMsg TSignal false false 3 0 (DUnique 1) 0 9)))
+  = [(1, OFwd 0 (mkMsg TSignal false false 3 0 (DUnique 1) 0 9)); (2, OEav 0 (mkMsg TSignal false false 3 0 (DUnique 1) 0 9))].
+Proof. vm_compute. reflexivity. Qed.
 Definition own : event := ERequestName 1 5 0 false false false.
 Definition to_name : msg := mkMsg TSignal false true 3 0 (DName 0) 0 9.
 Example ex_owner_gets_it : snd (step cfg_p (state_of cfg_p [EConnect false; EConnect false; own]) (ESend 0 to_name)) = [(1, OFwd 0 to_name)].
